@@ -192,6 +192,7 @@ class Executor:
         self.cur_owner = [unit_fi.cls]
         self.loop_index = {}
         self.entry_old = None
+        self.entry_alive = None
         self.comp_info = {}
         self.literal_seqs = {}
 
@@ -395,7 +396,7 @@ class Executor:
         """view a Val term as an SV of type ty (no check)"""
         s = ty.sort()
         if s == "int":
-            return SV("int", smt.inti(term), ty)
+            return SV("int", Val.i(term), ty)
         if s == "bool":
             return SV("bool", Val.b(term), ty)
         if s == "str":
@@ -706,6 +707,9 @@ class Executor:
                     needs_has = True
             if not classes:
                 needs_has = False
+            if needs_has and any((m, name) in self.S.lazy_ok for c in concs for m in (self.P.mro(c) if c in self.P.classes else [c])):
+                needs_has = False
+                self.assumed_used.add(f"I-DEF: attribute {name} exists on every {'/'.join(classes)} once Simulation.__init__ has returned")
             if needs_has:
                 has = self.heap_get(st, "has$" + name)
                 self.oblige(st, "def", f"attr-{name}-exists", node, has[o.t])
@@ -1074,7 +1078,10 @@ class Executor:
             return dh[container.t][self.to_val(x)]
         if container.k in ("ref", "seq") or (container.k == "val"):
             s = self.seq_of(container, st, node)
-            return Contains(s, self.to_val(x))
+            xv = self.to_val(x)
+            if not self.mentions_bound(s) and not self.mentions_bound(xv):
+                st.pc.append(smt.index_fact(s, xv))
+            return Contains(s, xv)
         raise Unsupported("in on " + container.k, node)
 
     def ev_IfExp(self, e, st):
@@ -1219,8 +1226,12 @@ class Executor:
             named = fresh("el", Val)
             st.assume(named == elem)
             elem = named
+        inr = z3.And(0 <= pos, pos < Len(s))
         if self.quant_facts is not None:
-            st.guards.append(z3.And(0 <= pos, pos < Len(s)))     # element facts hold for positions in range
+            st.guards.append(inr)     # element facts hold for positions in range
+            self.assume(st, smt.elem_fact(s, pos))
+        else:
+            st.assume(z3.Implies(inr, smt.elem_fact(s, pos)))
         try:
             sv = self.wrap_elem(elem, ety, st)
             if sv.k == "ref" and ety is not None and ety.kind in ("list", "dict") and base.k == "ref":
@@ -1291,10 +1302,29 @@ class Executor:
         if it.k == "ref" and it.h is not None and it.h.kind == "dict":
             kd = self.S.kinds.get(it.h.name)
             kty = kd[0] if isinstance(kd, tuple) else None
-            return self.heap_get(st, "$dk")[it.t], kty
+            return self.dict_keys(st, it.t), kty
         if it.k in ("ref", "seq", "val"):
             return self.seq_of(it, st, node), self.list_elem_ty(it)
         raise Unsupported("iteration over " + it.k, node)
+
+    def dict_keys(self, st, d):
+        """insertion-ordered key sequence of dict object d (named), with the well-formedness fact
+        that every listed key is present"""
+        dk = self.heap_get(st, "$dk")
+        dh = self.heap_get(st, "$dh")
+        if self.quant_facts is not None and self.mentions_bound(d):
+            return dk[d]
+        names = st.known.setdefault("$names", {})
+        key = ("dk", dk.get_id(), dh.get_id(), d.get_id())
+        if key not in names:
+            c = fresh("keys", Seq)
+            st.pc.append(c == dk[d])
+            j = z3.Int(f"j!{next(_uid)}")
+            st.pc.append(smt.forall([j], z3.Implies(z3.And(0 <= j, j < Len(c)), dh[d][At(c, j)]), [At(c, j)]))
+            x = z3.Const(f"x!{next(_uid)}", Val)
+            st.pc.append(smt.forall([x], dh[d][x] == Contains(c, x), [Contains(c, x)]))
+            names[key] = c
+        return names[key]
 
     def bind_target(self, st, target, sv, node):
         if isinstance(target, ast.Name):
@@ -1356,7 +1386,8 @@ class Executor:
         if not conds:
             # pure map: same length, pointwise
             ax.append(Len(R_) == Len(S0))
-            ax.append(smt.forall([j], z3.Implies(z3.And(0 <= j, j < Len(S0)), z3.And(Fk(j), At(R_, j) == Ek(j))),
+            ax.append(smt.forall([j], z3.Implies(z3.And(0 <= j, j < Len(S0)),
+                                                z3.And(Fk(j), At(R_, j) == Ek(j), smt.elem_fact(R_, j), smt.elem_fact(S0, j))),
                                 patterns=[At(R_, j)]))
             # when the map is the identity the result equals the source pointwise; also give the reverse trigger
             ax.append(smt.forall([j], z3.Implies(z3.And(0 <= j, j < Len(S0)), z3.And(Fk(j), At(R_, j) == Ek(j))),
@@ -1365,7 +1396,8 @@ class Executor:
             ax.append(Len(R_) <= Len(S0))
             ax.append(smt.forall([j], z3.Implies(z3.And(0 <= j, j < Len(R_)),
                                                 z3.And(0 <= idx(j), idx(j) < Len(S0), Fk(idx(j)), Pk(idx(j)),
-                                                       At(R_, j) == Ek(idx(j)), inv(idx(j)) == j)),
+                                                       At(R_, j) == Ek(idx(j)), inv(idx(j)) == j,
+                                                       smt.elem_fact(R_, j), smt.elem_fact(S0, idx(j)))),
                                 patterns=[At(R_, j)]))
             ax.append(smt.forall([j, j2], z3.Implies(z3.And(0 <= j, j < j2, j2 < Len(R_)), idx(j) < idx(j2)),
                                 patterns=[z3.MultiPattern(idx(j), idx(j2))]))
